@@ -102,6 +102,53 @@ fn classify(f: &syn::ImplItemFn, generics: &[String]) -> (String, String) {
     }
 }
 
+pub fn wrapper_lean(w: &str) -> String {
+    match w {
+        "Box" => ".box".into(),
+        "&mut" => ".refMut".into(),
+        "&" => ".ref".into(),
+        "&ThreadedRodeo" => ".threadedRef".into(),
+        "Rodeo" => ".rodeo".into(),
+        "ThreadedRodeo" => ".threaded".into(),
+        "RodeoReader" => ".reader".into(),
+        "RodeoResolver" => ".resolver".into(),
+        other => format!("(.other {})", lean::s(other)),
+    }
+}
+
+pub fn method_lean(m: &str) -> String {
+    match m {
+        "get_or_intern" => ".getOrIntern".into(),
+        "try_get_or_intern" => ".tryGetOrIntern".into(),
+        "get_or_intern_static" => ".getOrInternStatic".into(),
+        "try_get_or_intern_static" => ".tryGetOrInternStatic".into(),
+        "get" => ".get".into(),
+        "contains" => ".contains".into(),
+        "resolve" => ".resolve".into(),
+        "try_resolve" => ".tryResolve".into(),
+        "resolve_unchecked" => ".resolveUnchecked".into(),
+        "contains_key" => ".containsKey".into(),
+        "len" => ".len".into(),
+        "is_empty" => ".isEmpty".into(),
+        "into_reader" => ".intoReader".into(),
+        "into_resolver" => ".intoResolver".into(),
+        "into_reader_boxed" => ".intoReaderBoxed".into(),
+        "into_resolver_boxed" => ".intoResolverBoxed".into(),
+        other => format!("(.other {})", lean::s(other)),
+    }
+}
+
+fn kind_lean(k: &str) -> String {
+    match k {
+        "deref" => ".deref".into(),
+        "deref1" => ".deref1".into(),
+        "self" => ".self_".into(),
+        "ufcs-trait" => ".ufcsTrait".into(),
+        _ if k.starts_with("inherent-ufcs:") => format!("(.inherentUfcs {})", wrapper_lean(&k[14..])),
+        _ => ".other".into(),
+    }
+}
+
 pub fn emit(src: &Path, out: &mut String) {
     let mut items = Vec::new();
     let dir = src.join("interface");
@@ -133,11 +180,11 @@ pub fn emit(src: &Path, out: &mut String) {
                     let (callee, kind) = classify(f, &generics);
                     items.push(format!(
                         "{{ wrapper := {}, trait_ := {}, method := {}, callee := {}, calleeKind := {} }}",
-                        lean::s(&wrapper),
+                        wrapper_lean(&wrapper),
                         lean::s(&trait_name),
-                        lean::s(&f.sig.ident.to_string()),
-                        lean::s(&callee),
-                        lean::s(&kind)
+                        method_lean(&f.sig.ident.to_string()),
+                        method_lean(&callee),
+                        kind_lean(&kind)
                     ));
                 }
             }
